@@ -53,6 +53,17 @@ def run(ctx: Ctx):
               ' answers with a RETRIABLE error, so the shard is re-queued'
               ' instead of failing the run (R-C15-4 terminal/uninitialised'
               ' answers)', c15.r4, min_instances=3)
+  from mlmverif.props import c16
+  ctx.include('R-C06-15', '"as long as one worker stays usable": a healthy worker must'
+              ' not be declared dead by its own slow call — refresh stores'
+              ' max(previous, new) atomically, so the send time of a call that ran'
+              ' longer than the threshold cannot overwrite the heartbeats the worker'
+              ' pushed meanwhile (R-C20-2)', c20.r2, min_instances=3)
+  ctx.include('R-C06-16', '"every shard\'s aggregation state is merged exactly once so the'
+              ' final aggregate equals the fault-free result": the merge of the shard'
+              ' states materialises the one-shot stream of states before handing it to'
+              ' every aggregating stage and counts each state once (R-C16-1)', c16.r1,
+              min_instances=2)
 
 
 def _c05_shared(sub, m):
